@@ -259,6 +259,8 @@ def decimal_accuracy(ctx, config, w, o, X, Y, Rr, imp, amt):
                 t = t[3][0]
             try:
                 rel, _err = A.worst(A.analyse_poly(t, {sa_t: sa, sb_t: sb}, amounts))
+            except A.Overflow:
+                continue   # outside the magnitude range C18 analyses (its decimal-range rule judges representability)
             except A.Unsupported:
                 continue
             n += 1
